@@ -121,6 +121,13 @@ _EXC = {'ValueError': ValueError, 'TypeError': TypeError, 'KeyError': KeyError, 
         'Exception': Exception, 'LookupError': LookupError, 'OverflowError': OverflowError}
 
 
+class HookBoom(Exception):
+    """Raised by generated __post_init__ hooks: deliberately not in any builtin exception family."""
+
+
+_EXC['HookBoom'] = HookBoom
+
+
 class PostCounter:
     """Counts __post_init__ calls per generated class."""
     counts: t.Dict[str, int] = {}
